@@ -54,74 +54,7 @@ func runC02(c *kit.Ctx) {
 
 	// ---- R1 ---------------------------------------------------------------
 	c.StartRule("R1", "call-id allocation and sent-table discipline", 5)
-	for _, a := range p.FieldAccesses(idF) {
-		if kit.FreshObject(a.Instr) {
-			continue
-		}
-		switch {
-		case a.Kind == "address-to-sync/atomic.AddUint32":
-			c.Check(a.Fn == reg, a.Fn, "id-increment", posOf(a.Instr), "atomic increment in registerRPC", "the call-id counter is incremented outside registerRPC")
-		case a.Kind == "address-to-sync/atomic.LoadUint32":
-			c.OK(a.Fn, "id-read", posOf(a.Instr), "atomic read (debug state)")
-		default:
-			c.Bad(a.Fn, "id-access "+a.Kind, posOf(a.Instr), "non-atomic or unexpected access to the call-id counter: two requests can get the same id", "")
-		}
-	}
-	for _, a := range p.FieldAccesses(sentF) {
-		if kit.FreshObject(a.Instr) || !a.Write {
-			continue
-		}
-		okFn := (a.Kind == "map-update" && a.Fn == reg) || (a.Kind == "map-delete" && a.Fn == unreg) || (a.Kind == "store" && a.Fn == failSent)
-		c.Check(okFn, a.Fn, "sent-"+a.Kind, posOf(a.Instr), "sent table written by its owner function", "the sent table is modified outside registerRPC/unregisterRPC/failSentRPCs")
-	}
-	// registerRPC inserts under the fresh id and returns it
-	{
-		good := false
-		kit.Instrs(reg, func(in ssa.Instruction) {
-			mu, ok := in.(*ssa.MapUpdate)
-			if !ok || !isLoadOfField(mu.Map, sentF) {
-				return
-			}
-			call, ok := mu.Key.(*ssa.Call)
-			if !ok || kit.CalleeName(call) != "sync/atomic.AddUint32" {
-				return
-			}
-			if _, isParam := kit.Strip(mu.Value).(*ssa.Parameter); !isParam {
-				return
-			}
-			kit.Instrs(reg, func(x ssa.Instruction) {
-				if r, ok := x.(*ssa.Return); ok && kit.Res(r, 0) == ssa.Value(call) {
-					good = true
-				}
-			})
-		})
-		c.Check(good, reg, "insert-under-fresh-id", reg.Pos(), "sent[id] = rpc with id = atomic.AddUint32(&c.id, 1), the id returned", "registerRPC does not insert the call under the id it returns")
-	}
-	// unregisterRPC looks up and deletes the same id and returns the looked-up call
-	{
-		idParam := paramOfType(unreg, "uint32", 0)
-		lookupOK, deleteOK, retOK := false, false, false
-		var looked ssa.Value
-		kit.Instrs(unreg, func(in ssa.Instruction) {
-			switch x := in.(type) {
-			case *ssa.Lookup:
-				if isLoadOfField(x.X, sentF) && x.Index == ssa.Value(idParam) {
-					lookupOK = true
-					looked = x
-				}
-			case *ssa.Call:
-				if kit.CalleeName(x) == "builtin.delete" && isLoadOfField(x.Call.Args[0], sentF) && x.Call.Args[1] == ssa.Value(idParam) {
-					deleteOK = true
-				}
-			}
-		})
-		kit.Instrs(unreg, func(in ssa.Instruction) {
-			if r, ok := in.(*ssa.Return); ok && looked != nil && kit.Root(kit.Res(r, 0)) == looked {
-				retOK = true
-			}
-		})
-		c.Check(lookupOK && deleteOK && retOK, unreg, "lookup-delete-same-id", unreg.Pos(), "returns sent[id] and deletes that id", "unregisterRPC does not return and delete the entry of the id it was given")
-	}
+	callIDDiscipline(c)
 
 	// ---- R2 ---------------------------------------------------------------
 	c.StartRule("R2", "id on the wire = id registered for the same call", 2)
@@ -668,5 +601,86 @@ func noResponseBufferRecycling(c *kit.Ctx) {
 		fn := enclosingNamed(s.Parent())
 		_, ok := allowed[kit.FuncName(fn)]
 		c.Check(ok, s.Parent(), "buffer-recycled", s.Pos(), "request-side scratch buffer returned to the pool", "a buffer is returned to the pool on the response path (or a new place): decoded cells handed to callers are sub-slices of the frame buffer, so a later response overwrites the rows and values an earlier caller still holds")
+	}
+}
+
+// callIDDiscipline: the call id is allocated atomically in registerRPC, which inserts the call under
+// the very id it returns; the sent table is only written by its three owner functions. Shared by
+// C02.R1 and C05.R4 (a call id unique on the connection).
+func callIDDiscipline(c *kit.Ctx) {
+	p := c.P
+	reg, unreg, failSent := p.Func("region", "client", "registerRPC"), p.Func("region", "client", "unregisterRPC"), p.Func("region", "client", "failSentRPCs")
+	idF, sentF := p.Field("region", "client", "id"), p.Field("region", "client", "sent")
+	if reg == nil || unreg == nil || idF == nil || sentF == nil {
+		c.Unk(nil, "call-id-discipline", token.NoPos, "registerRPC/unregisterRPC or the fields id/sent of region.client not found")
+		return
+	}
+	for _, a := range p.FieldAccesses(idF) {
+		if kit.FreshObject(a.Instr) {
+			continue
+		}
+		switch {
+		case a.Kind == "address-to-sync/atomic.AddUint32":
+			c.Check(a.Fn == reg, a.Fn, "id-increment", posOf(a.Instr), "atomic increment in registerRPC", "the call-id counter is incremented outside registerRPC")
+		case a.Kind == "address-to-sync/atomic.LoadUint32":
+			c.OK(a.Fn, "id-read", posOf(a.Instr), "atomic read (debug state)")
+		default:
+			c.Bad(a.Fn, "id-access "+a.Kind, posOf(a.Instr), "non-atomic or unexpected access to the call-id counter: two requests can get the same id", "")
+		}
+	}
+	for _, a := range p.FieldAccesses(sentF) {
+		if kit.FreshObject(a.Instr) || !a.Write {
+			continue
+		}
+		okFn := (a.Kind == "map-update" && a.Fn == reg) || (a.Kind == "map-delete" && a.Fn == unreg) || (a.Kind == "store" && a.Fn == failSent)
+		c.Check(okFn, a.Fn, "sent-"+a.Kind, posOf(a.Instr), "sent table written by its owner function", "the sent table is modified outside registerRPC/unregisterRPC/failSentRPCs")
+	}
+	// registerRPC inserts under the fresh id and returns it
+	{
+		good := false
+		kit.Instrs(reg, func(in ssa.Instruction) {
+			mu, ok := in.(*ssa.MapUpdate)
+			if !ok || !isLoadOfField(mu.Map, sentF) {
+				return
+			}
+			call, ok := mu.Key.(*ssa.Call)
+			if !ok || kit.CalleeName(call) != "sync/atomic.AddUint32" {
+				return
+			}
+			if _, isParam := kit.Strip(mu.Value).(*ssa.Parameter); !isParam {
+				return
+			}
+			kit.Instrs(reg, func(x ssa.Instruction) {
+				if r, ok := x.(*ssa.Return); ok && kit.Res(r, 0) == ssa.Value(call) {
+					good = true
+				}
+			})
+		})
+		c.Check(good, reg, "insert-under-fresh-id", reg.Pos(), "sent[id] = rpc with id = atomic.AddUint32(&c.id, 1), the id returned", "registerRPC does not insert the call under the id it returns")
+	}
+	// unregisterRPC looks up and deletes the same id and returns the looked-up call
+	{
+		idParam := paramOfType(unreg, "uint32", 0)
+		lookupOK, deleteOK, retOK := false, false, false
+		var looked ssa.Value
+		kit.Instrs(unreg, func(in ssa.Instruction) {
+			switch x := in.(type) {
+			case *ssa.Lookup:
+				if isLoadOfField(x.X, sentF) && x.Index == ssa.Value(idParam) {
+					lookupOK = true
+					looked = x
+				}
+			case *ssa.Call:
+				if kit.CalleeName(x) == "builtin.delete" && isLoadOfField(x.Call.Args[0], sentF) && x.Call.Args[1] == ssa.Value(idParam) {
+					deleteOK = true
+				}
+			}
+		})
+		kit.Instrs(unreg, func(in ssa.Instruction) {
+			if r, ok := in.(*ssa.Return); ok && looked != nil && kit.Root(kit.Res(r, 0)) == looked {
+				retOK = true
+			}
+		})
+		c.Check(lookupOK && deleteOK && retOK, unreg, "lookup-delete-same-id", unreg.Pos(), "returns sent[id] and deletes that id", "unregisterRPC does not return and delete the entry of the id it was given")
 	}
 }
